@@ -439,6 +439,55 @@ def _replace_grid(tier):
     return out
 
 
+# ---------------------------------------------------------------------------- merge with down-sampling, then replace
+def _merge_down(mk, val, l1, l2, ns):
+    import strax
+
+    peaks = mk(2)
+    spec = [(0, l1), (l1, l2)]
+    ar = []
+    for i, (t, l) in enumerate(spec):
+        peaks["time"][i], peaks["length"][i], peaks["dt"][i], peaks["channel"][i], peaks["n_hits"][i] = t, l, 1, -1, 1
+        a = val(f"ar{i}")
+        ar.append(a)
+        peaks["area"][i] = a
+        for k in range(min(l, ns)):
+            peaks["data"][i][k] = 1
+    merged = strax.merge_peaks(peaks, np.array([0]), np.array([2]), max_buffer=64)
+    out = strax.replace_merged(peaks, merged)
+    return peaks, merged, out, ar
+
+
+def _merge_down_check(merged, out, ar, l1, l2):
+    end = merged["time"][0] + merged["length"][0] * merged["dt"][0]
+    prove(end >= l1 + l2, f"merge_down:merged peak ends at {end}, before the end {l1 + l2} of its last constituent "
+                          f"(down-sampled length floored)")
+    prove(len(out) == 1, f"merge_down:replace_merged keeps {len(out)} peaks: a constituent survives next to the merged peak")
+    tot = out["area"][0]
+    for q in range(1, len(out)):
+        tot = tot + out["area"][q]
+    prove(tot == ar[0] + ar[1], "merge_down:total area after replace_merged is not the area before")
+    return "ok"
+
+
+def sym_merge_down(l1, l2, ns=4):
+    import strax
+
+    PD = np.dtype(strax.peak_dtype(n_channels=2, n_sum_wv_samples=ns))
+    peaks, merged, out, ar = _merge_down(lambda n: arrays.make(PD, n), lambda nm: fresh_int(nm, 0, 10**6), l1, l2, ns)
+    return _merge_down_check(merged, out, ar, l1, l2)
+
+
+def nat_merge_down(params, model):
+    import strax
+
+    l1, l2, ns = params["l1"], params["l2"], params.get("ns", 4)
+    PD = np.dtype(strax.peak_dtype(n_channels=2, n_sum_wv_samples=ns))
+    peaks, merged, out, ar = _merge_down(lambda n: np.zeros(n, PD), lambda nm: model.get(nm, 0) or 0, l1, l2, ns)
+    label = core.concrete_run(lambda: _merge_down_check(merged, out, ar, l1, l2), model)
+    return {"ok": label is None, "detail": label or "merged peak spans its constituents; area conserved", "label": label}
+
+
 def sym_twin():
     sym_sma(3, 1)
     prove(False, "twin:reachable")
@@ -481,6 +530,10 @@ OBLIGATIONS = [
     Ob("merge_seq", sym_merge_seq, lambda tier: [dict()], nat_merge_seq, setup=_setup, witnesses=1,
        doc="two groups in one merge_peaks call (first down-sampled, second with a hole): the second merged waveform is "
            "the sum of its own constituents only"),
+    Ob("merge_down", sym_merge_down, lambda tier: [dict(l1=6, l2=2, ns=8), dict(l1=8, l2=8, ns=8), dict(l1=8, l2=1, ns=8), dict(l1=7, l2=4, ns=8)],
+       nat_merge_down, setup=_setup, witnesses=1,
+       doc="merge_peaks with down-sampling, then replace_merged: the merged peak reaches the end of its last constituent, "
+           "no constituent survives, total area conserved"),
     Ob("hdr", sym_hdr, lambda tier: [dict(n=n, B=B) for n, B in ((3, 1), (5, 2), (6, 2), (7, 3))], nat_hdr, setup=_setup,
        witnesses=2, doc="_process_intervals_numba (highest_density_region): the intervals are the maximal runs of "
                         "samples above a symbolic level, or the overflow flag when they do not fit the buffer; nothing "
